@@ -419,11 +419,14 @@ def decompose(text, iri=False):
     if port is not None and port > 65535:
         raise Reject("port-range")
     path = _segments(remove_dot_segments(p.path))
-    path_literal = _segments(p.path)
+    try:
+        path_literal = _segments(p.path)
+    except Reject:
+        path_literal = None  # a segment that dot-segment removal drops is not UTF-8: the URI itself is fine
     query = ()
     if p.query is not None:
         query = tuple(pct_decode_text(a) for a in p.query.split("&"))
-    escaped_dots = any("%" in raw and dec in (".", "..") for raw, dec in zip(p.path.split("/")[1:], path_literal))
+    escaped_dots = any("%" in raw and pct_decode(raw) in (b".", b"..") for raw in p.path.split("/")[1:])
     return Decomp(scheme, host, uri_host, uri_host_alt, port, port if port is not None else DEFAULT_PORT[scheme], path, query, p.query is not None, path_literal, escaped_dots)
 
 
@@ -612,6 +615,7 @@ def selftest():
     assert decompose("coap://h/?").query == ("",) and decompose("coap://h/?").has_query and not decompose("coap://h/").has_query
     assert decompose("coap://h/a/%2E%2e/b").escaped_dots and not decompose("coap://h/a/../b%2E").escaped_dots
     assert classify("coap://h:1 2/")[0] == "notauri" and classify("coap://h:1a/") == ("reject", "port-non-numeric")
+    assert decompose("coap://h/a%FF/../b").path == ("b",) and decompose("coap://h/a%FF/../b").path_literal is None
     assert decompose("coap://h/a/../b/./c").path == ("b", "c") and decompose("coap://h/a/../b/./c").path_literal == ("a", "..", "b", ".", "c")
     d = decompose("coap://[FE80::0001%25eth0]:1/")
     assert d.host == Host("ipv6", "[FE80::0001%25eth0]", 0xFE80 << 112 | 1, "eth0") and d.uri_host is None
